@@ -44,6 +44,24 @@ CHECKS = {
  'C20': dict(text='encode/walker, the front-end decoding and the drag handler are modelled; proved by induction over subject trees of any depth: decode(encode(t)) yields exactly the coefficient vectors of the reachable multivectors (array-valued ones expanded), key2idx is a bijection, a drag overwrites exactly the stored coefficients of the addressed subject. Tie: real GraphWidget payloads vs. the model text; oracle: the payload is decoded by the actual toElement/decode lines of graph.js under node and compared with the true coefficients; drag sequences on several subjects sharing blades.',
              note='traitlets, buffer transport and everything in the browser beyond toElement/decode are trusted',
              tech='Lean 4 proof (tree induction) + payload correspondence + front-end code executed under node', ref='6/C20'),
+ 'C06': dict(text='The generation path of sw/proj/normsq is modelled (compositions evaluated once on symbolic RationalPolynomial operands, falsy-coefficient filter after each step); proved for every admissible configuration, all key tuples and every valuation in every field: the generated polynomials denote a*b*~a, (a|b)*~b, a*~a, and a coefficient dropped by the filter evaluates to 0 under every valuation. Tie: the real generated functions as polynomial maps (tracer ring) vs. the model polynomials; oracle: vs. the composition of elementary operators on the real code, also after in-place updates of the operand.',
+             note="sympy's cse and printer between kingdon's polynomials and the compiled text are trusted (covered by the tracer correspondence only); dense operands in d >= 4 are thorough-only",
+             tech='Lean 4 proof (partial-homomorphism naturality + filter soundness) + tracer-ring correspondence', ref='6/C06'),
+ 'C07': dict(text='codegen_hitzer_inv is modelled generically in the coefficient type (d <= 5); tie: the real generated inverse as a rational map (tracer field) vs. model numerator/denominator by cross-multiplication; oracle with exact Fractions: x*x.inv() = 1 = x.inv()*x (exact d<=5, 1e-7 for the iterative scheme d>=6), a/b, n/x, x**-n, ZeroDivisionError only for operands whose left-multiplication determinant vanishes.',
+             note='PARTIAL: the polynomial identities x*num = denom are proved by reflection for small d only (see Properties/C07.lean); d = 5 and the iterative scheme (d >= 6) are validated by exact/1e-7 differential testing, which is testing, not proof',
+             tech='Lean 4 reflection (decide +kernel on polynomial normal forms) for small d + exact differential testing', ref='6/C07'),
+ 'C12': dict(text='Naturality: every generator of the model commutes with mapping a ring homomorphism over the stored coefficients (substitution of numbers for symbols is one), proved for all key tuples; for kingdon RationalPolynomial symbols the zero filter is proved sound. Oracle: symbolic/mixed/string coefficients, then subs (exact) and positional/keyword calls (1e-9) vs. numeric operands; binding order of call arguments.',
+             note='PARTIAL: sympy is the symbolic ring; that its simplifier is falsy only for 0 and that printing preserves semantics is trusted',
+             tech='Lean 4 naturality proofs + symbolic-vs-numeric differential testing', ref='6/C12'),
+ 'C13': dict(text='In the model the generators do not depend on any option: symbol classes related by a homomorphism yield the same function (naturality), a wrapper serves each call with its own function (C09). Oracle: the option product {cse} x {graded} x {codegen_symbolcls} x {wrapper} (+pretty_blade) on grade-block operands, every operator, two passes per algebra, vs. default options; graded mode: success and complete grades.',
+             note='open findings F7a/F7b (graded mode with degenerate metrics) are listed in known_findings.json; quick tier samples the option product',
+             tech='Lean 4 naturality/serving corollaries + option-product differential testing', ref='6/C13'),
+ 'C18': dict(text='matrix_rep (Kronecker construction, ordered blade products for default and custom bases, ordering transform), asmatrix and frommatrix are modelled; tie: matrix_basis entry by entry vs. the model for every signature ordering d<=3 (sampled above) and custom/named bases; oracle: multiplicativity on all blade pairs, linearity, first column, frommatrix, expr_as_matrix on linear expressions (symbolic/numeric/array/res_like).',
+             note='PARTIAL: expr_as_matrix relies on sympy collect/coeff/lambdify (trusted); see Properties/C18.lean for what is proved about the Kronecker construction',
+             tech='Lean 4 model + theorems on the Kronecker construction + matrix correspondence', ref='6/C18'),
+ 'C19': dict(text='Outer series modelled as wedge powers with the early break; tie: model wedge powers vs. the real outerexp/outersin/outercos at rational points; oracle (1e-9): outer series, outertan, exp vs. 60 terms of the power series for every sign of square and dtype, sqrt/**0.5/powers/norm/normalized on Study numbers.',
+             note='PARTIAL: the code computes in floating point and with numpy/sympy transcendental functions, which the exact model cannot exhibit; one open finding (exp of ndarray operands)',
+             tech='Lean 4 identities in exact arithmetic + numeric differential testing with tolerance', ref='6/C19'),
 }
 NOT_YET = 'check not built yet in this round (design in DESIGN.md section 6); not claimed until it runs green on the unchanged tree'
 
